@@ -45,7 +45,9 @@ OnCreate(e) ==
       THEN V("C20_ColumnNamesAndOrder", e, [sql |-> e.sql, table_info |-> e.ti, select_star |-> e.selcols, want |-> e.names]) ELSE {})
      \cup (IF \E i \in 1..n : e.ti[i][4] # Flag(d[i].pk)
       THEN V("C20_KeyColumn", e, [sql |-> e.sql, table_info |-> e.ti, want |-> [i \in 1..n |-> d[i].pk]]) ELSE {})
-     \cup (IF \E i \in 1..n : e.ti[i][2] # TypeLit(d[i].type)
+     \* (the property lists names, order, key and NOT NULL behaviour; of the optional types it is only demanded that a
+     \* column is not declared with a type it was not given: the given one or none)
+     \cup (IF \E i \in 1..n : e.ti[i][2] \notin {TypeLit(d[i].type), "t:"}
       THEN V("C20_DeclaredType", e, [sql |-> e.sql, table_info |-> e.ti, want |-> [i \in 1..n |-> d[i].type]]) ELSE {})
      \cup (IF ~e.readonly /\ \E i \in 1..n : e.nullprobe[i] # (IF d[i].refuses_null THEN "constraint_notnull" ELSE "ok")
       THEN V("C20_NotNullBehaviour", e, [sql |-> e.sql, got |-> e.nullprobe, want |-> [i \in 1..n |-> d[i].refuses_null]]) ELSE {})
